@@ -7,6 +7,7 @@ usage: python -m hvmon.shard <Cxx> --tier t --seed s --shard i --nshards n --cas
 import argparse
 import importlib
 import json
+import logging
 import os
 import subprocess
 import sys
@@ -30,7 +31,7 @@ def case_rng(seed, num, idx):
     return np.random.default_rng([int(seed), int(num), int(idx)])
 
 
-def run(mod, ctx, indices, seconds):
+def run(mod, ctx, indices, seconds, family=None):
     t0 = time.time()
     fams = mod.FAMILIES
     if hasattr(mod, "setup"):
@@ -39,9 +40,22 @@ def run(mod, ctx, indices, seconds):
         if time.time() - t0 > seconds:
             ctx.count("stopped_by_time_budget")
             break
-        name, fn = fams[idx % len(fams)]
+        # the families rotate WITHIN every shard (a shard holds the indices congruent to it, so `idx % len(fams)` would
+        # pin a shard to a subset of the families, and with it that shard's hash seed / locale); a replay names the family
+        if family is not None:
+            name, fn = next((n, f) for n, f in fams if n == family)
+        else:
+            name, fn = fams[(idx // max(ctx.nshards, 1)) % len(fams)]
         rng = case_rng(ctx.seed, mod.NUM, idx)
         ctx.begin_case(name, idx)
+        # the logging configuration is part of the environment: some cases run with hvsrpy's loggers enabled for DEBUG
+        # (records go to a NullHandler), the rest at the default level; a separate generator keeps the case itself unchanged
+        debug_logging = bool(np.random.default_rng([ctx.seed, mod.NUM, idx, 77]).random() < 0.15)
+        hv_logger = logging.getLogger("hvsrpy")
+        old_level = hv_logger.level
+        if debug_logging:
+            hv_logger.setLevel(logging.DEBUG)
+            ctx.count("cases_with_hvsrpy_logging_at_DEBUG")
         try:
             fn(ctx, rng)
         except subprocess.TimeoutExpired as exc:
@@ -51,6 +65,8 @@ def run(mod, ctx, indices, seconds):
             ctx.count("watchdog:" + str(getattr(exc, "cmd", ["?"])[-1])[:60])
         except Exception as exc:  # any escape from a case is recorded, never swallowed
             ctx.exception(exc)
+        finally:
+            hv_logger.setLevel(old_level)
     if hasattr(mod, "teardown"):
         try:
             mod.teardown(ctx)
@@ -70,6 +86,7 @@ def main(argv=None):
     ap.add_argument("--cases", type=int, default=100)
     ap.add_argument("--seconds", type=float, default=60)
     ap.add_argument("--only-index", type=int, default=None)
+    ap.add_argument("--family", default=None)
     ap.add_argument("--out", required=True)
     ap.add_argument("--verbose", action="store_true")
     a = ap.parse_args(argv)
@@ -90,7 +107,7 @@ def main(argv=None):
         indices = [a.only_index]
     else:
         indices = range(a.shard, a.cases, a.nshards)
-    wall = run(mod, ctx, indices, a.seconds)
+    wall = run(mod, ctx, indices, a.seconds, family=a.family)
     res = ctx.result()
     res["wall_s"] = wall
     res["hvsrpy_path"] = path
